@@ -14,6 +14,7 @@ Facts:
     request data, data type (by name, or the members of an inline Struct(...)), name, the
     connected / unconnected_send flags (False, True, `not self._micro800`), and the shape of the
     route expression of get_module_info;
+  * get_plc_time: whether the datetime arithmetic is guarded by `except OverflowError`;
   * set_plc_time: the members of `_struct = Struct(...)` and the literal prefix of the list passed
     to `_struct.encode([...])`; get_plc_time: the key used to read the decoded value;
   * wrap_unconnected_send: the class member, the instance literal and the order of the joined parts;
@@ -358,6 +359,8 @@ def gen_generic_facts():
             f"Name(id='{p_msg}')": "message",
             f"IfExp(test=BinOp(left=Name(id='{len_name}'), op=Mod(), right=Constant(value=2)), body=Constant(value=b'\\x00'), orelse=Constant(value=b''))": "pad",
             f"Name(id='{p_route}')": "route",
+            # `route_path or b"\x00\x00"`: an absent route is sent as an empty route (size 0, reserved 0)
+            f"BoolOp(op=Or(), values=[Name(id='{p_route}'), Constant(value=b'\\x00\\x00')])": "route_or_empty",
         }
         if d not in known:
             raise GenError(f"wrap_unconnected_send: unrecognised joined part {d[:80]}")
@@ -380,6 +383,20 @@ def gen_generic_facts():
     epoch = datetime.datetime(*ep)
     d = datetime.datetime.max - epoch
     us = (d.days * 86400 + d.seconds) * 1000000 + d.microseconds
+    # is the datetime arithmetic of get_plc_time inside `try: ... except OverflowError:`?
+    catches = False
+    for n in ast.walk(gpt):
+        if isinstance(n, ast.Try):
+            inside = any(isinstance(m, ast.Call) and _dump(m.func) == "Attribute(value=Name(id='datetime'), attr='datetime')"
+                         for b in n.body for m in ast.walk(b))
+            names = [h.type.id for h in n.handlers if isinstance(h.type, ast.Name)]
+            if inside:
+                if names != ["OverflowError"] or n.orelse or n.finalbody:
+                    raise GenError("get_plc_time: unrecognised try/except around the datetime arithmetic")
+                catches = True
+    out.append(f"\n(* get_plc_time: `try: datetime(...) + timedelta(...); strftime except OverflowError: None` *)\n")
+    out.append(f"Definition get_plc_time_catches_overflow : bool := {coq_bool(catches)}.\n")
+    out.append(f"Definition ucsend_empty_route : list Z := [0; 0].\n")
     out.append(f"\nDefinition plc_time_epoch : list Z := [{'; '.join(str(x) for x in ep)}].\n")
     out.append(f"Definition datetime_max_us : Z := {us}.\n")
     return "".join(out)
